@@ -195,6 +195,7 @@ def replay_sequence(table: dict, seq: list[int], via: str, seed, tol: float) -> 
     else:
         sim = make_simulation(content, res, seed)
     stored = snapshot(sim)
+    declared = declared_parameters(sim.model)
     for step, k in enumerate(seq):
         op = table["ops"][k - 1]
         style = (hash((seed, step, k)) & 0xFFFF) if seed is not None else 0
@@ -206,11 +207,25 @@ def replay_sequence(table: dict, seq: list[int], via: str, seed, tol: float) -> 
         if changed:
             return {"step": step, "op": op, "what": "the stored result was changed by a read", **changed}
         if obs is None:
+            declared = declared_parameters(sim.model)
             continue
+        now = declared_parameters(sim.model)
+        if now != declared:
+            return {"step": step, "op": op, "what": "the model's parameter declarations were changed by a read",
+                    "before": declared, "after": now}
         bad = compare(table["answers"][k - 1], obs, tol)
         if bad:
             return {"step": step, "op": op, **bad}
     return None
+
+
+def declared_parameters(model) -> dict:
+    """The model's parameter declarations (numbers and assignments): reading a result must leave them alone."""
+    out = {}
+    for k, par in model.get_raw_parameters(as_copy=False).items():
+        v = par.value
+        out[k] = float(v) if isinstance(v, int | float) else ("assignment", getattr(v.fn, "__name__", "?"), tuple(v.args))
+    return out
 
 
 def snapshot(sim) -> dict:
@@ -246,9 +261,11 @@ def replay_session(table: dict, events: list[dict], ns: list[int], seed, tol: fl
         try:
             if ev["e"] == "continue":
                 st = sim["steps"][k]
-                s.update_parameters({n: float(v) for n, v in fn_to_dict(st["pars"]).items()})
+                s.update_parameters({n: float(v) for n, v in fn_to_dict(st["set"]).items()})
                 s.simulate_time_course([float(t) for t in st["times"]])
                 k += 1
+            elif ev["e"] == "edit":
+                m.update_variable("x", float(table["editx0"]))
             elif ev["e"] == "get":
                 r = s.get_result().unwrap_or_err()
                 results.append(r)
@@ -260,10 +277,15 @@ def replay_session(table: dict, events: list[dict], ns: list[int], seed, tol: fl
                 h, j = ev["h"] - 1, ev["op"] - 1
                 n = ns[h]
                 op = table["ops"][j]
+                before = declared_parameters(m)
                 obs = perform(results[h], op, table["res"][n - 1], 0)
                 bad = compare(table["answers"][n - 1][j], obs, tol)
                 if bad:
                     return {"step": step, "event": ev, "op": op, "result_segments": n, **bad}
+                after = declared_parameters(m)
+                if after != before:
+                    return {"step": step, "event": ev, "op": op, "before": before, "after": after,
+                            "what": "the model's parameter declarations were changed by a read"}
         except Exception as e:  # noqa: BLE001  (the library's answer to this history)
             return {"step": step, "event": ev, "what": "exception", "exc": type(e).__name__, "message": str(e)[:200]}
         for h, (r, st0) in enumerate(zip(results, stored)):
@@ -315,6 +337,17 @@ def classify_session(events: list[dict], detail: dict) -> str | None:
             and detail.get("what") == "a handed-out result was changed afterwards" \
             and detail.get("detail") == "number of segments":
         return "result-shares-simulator-lists"
+    return None
+
+
+def classify_assignment(table: dict, events: list[dict], detail: dict) -> str | None:
+    """Shapes of the defect repaired in 57ef329 (model with an assignment-defined parameter; a result recorded only
+    number-valued parameters): a value / declaration mismatch on a read of the Simulator session."""
+    has_ia = any(v.get("k") == "ia" for v in table["content"]["pars"].values())
+    if has_ia and detail.get("what") in ("value", "the model's parameter declarations were changed by a read"):
+        return "assignment-parameter-not-recorded"
+    if not has_ia and detail.get("what") == "the model's parameter declarations were changed by a read":
+        return "read-leaves-segment-parameters"
     return None
 
 
